@@ -55,7 +55,7 @@ var decodeTable = map[string]map[string]string{
 }
 
 func runC10(x *Ctx) {
-	x.C.Rule("C10.R1", "constructors and decoders pass through validate(); validate's decision table", 14)
+	x.C.Rule("C10.R1", "constructors and decoders pass through validate(); validate's decision table; Root sets the subject last", 15)
 	x.C.Rule("C10.R2", "who may write Token fields", 2)
 	x.C.Rule("C10.R3", "decode-side validators per field; policy decoders accept only the expected kinds and arities", 30)
 	x.C.Rule("C10.R4", "integer bound validation: bounds, recursion over all children, Args.Add; literal.Any hands the caller's scalars to the node constructors unchanged", 11)
@@ -115,6 +115,62 @@ func runC10(x *Ctx) {
 	tagRules(x)
 	builderKeepsRefusals(x)
 	literalVerbatim(x)
+	rootSubjectLast(x)
+}
+
+// rootSubjectLast: a root delegation has its issuer as subject. Options are applied in order and each overwrites
+// its field, so Root must hand WithSubject(issuer) to New as the LAST option (a caller's own WithSubject placed
+// after it would win, and validate does not look at the subject).
+func rootSubjectLast(x *Ctx) {
+	f := x.fn("C10.R1", "token/delegation.Root")
+	if f == nil {
+		return
+	}
+	ok, n := true, 0
+	detail := ""
+	want := "call[token/delegation.WithSubject](arg0)"
+	for _, p := range x.pathsQuiet(f) {
+		if p.End != paths.EndReturn || len(p.Results()) == 0 {
+			continue
+		}
+		if o, _ := p.ErrorOutcome(); o == paths.Failure {
+			continue
+		}
+		r := p.Results()[0]
+		if r.Op == "extract" && len(r.Args) == 1 {
+			r = r.Args[0]
+		}
+		n++
+		if r.Op != "call" || r.Name != "token/delegation.New" || len(r.Args) < 5 || r.Args[0].String() != "arg0" {
+			// the subject may also be set on the token after New returned
+			set := false
+			p.InstrsIn(func(in ssa.Instruction, c *paths.Ctx) {
+				if st, isSt := in.(*ssa.Store); isSt {
+					if at := c.Term(st.Addr); at != nil && at.Op == "fieldaddr" && at.Name == "subject" && c.Term(st.Val).String() == "arg0" {
+						set = true
+					}
+				}
+			})
+			if !set {
+				ok = false
+				detail += "Root returns " + r.String() + ": not New(iss, ...) with the subject option last, nor a token whose subject is set to the issuer afterwards\n"
+			}
+			continue
+		}
+		last := r.Args[len(r.Args)-1]
+		good := false
+		switch {
+		case last.Op == "varargs" && len(last.Args) > 0 && last.Args[len(last.Args)-1].String() == want:
+			good = true
+		case last.Op == "call" && last.Name == "builtin.append" && len(last.Args) == 2 && last.Args[1].Op == "varargs" && len(last.Args[1].Args) > 0 && last.Args[1].Args[len(last.Args[1].Args)-1].String() == want:
+			good = true
+		}
+		if !good {
+			ok = false
+			detail += "the options Root hands to New are " + last.String() + ": WithSubject(issuer) is not the last one, an option of the caller can replace the subject\n"
+		}
+	}
+	x.C.Obl("C10.R1", "root-subject-last", x.pos(f), "Root applies WithSubject(issuer) after every option of the caller", ok && n > 0, dedupLines(detail))
 }
 
 func whoWritesTokens(x *Ctx) {
